@@ -869,7 +869,7 @@ func replayProgModule(raw json.RawMessage) vdrv.Verdict {
 	return judgeProgModule(c)
 }
 
-var subs = map[string]vdrv.ReplayFunc{"litnum": replayLit, "litstr": replayLit, "litmisc": replayLit, "ctx": replayCtx, "prog": replayProg, "progmod": replayProgModule}
+var subs = map[string]vdrv.ReplayFunc{"litnum": replayLit, "litstr": replayLit, "litmisc": replayLit, "ctx": replayCtx, "prog": replayProg, "progmod": replayProgModule, "jsxrt": replayJSX, "jsxlit": replayJSX}
 
 func setup(t *testing.T) {
 	H = vdrv.New("C01")
@@ -892,6 +892,8 @@ func TestCheck(t *testing.T) {
 	H.Sub(t, "ctx", runCtxGrid)
 	H.Sub(t, "prog", runProg)
 	H.Sub(t, "progmod", runProgModule)
+	H.Sub(t, "jsxrt", runJSXRT)
+	H.Sub(t, "jsxlit", runJSXLit)
 	complete = true
 }
 
